@@ -380,8 +380,8 @@ func extractTagTokensFromComment(tok parser.Token) []semanticToken {
 		}
 		tagStart += searchStart
 
-		// Tag name with colon: "name:"
-		tagNameWithColonLen := uint32(len(name) + 1)
+		// Tag name with colon: "name:", measured in UTF-16 code units like every other token
+		tagNameWithColonLen := uint32(lsputil.UTF16Len(name) + 1)
 
 		// +1 to baseCol accounts for the semicolon that starts the comment
 		tokens = append(tokens, semanticToken{
